@@ -158,9 +158,11 @@ func (p Params[T]) Config(ctx context.Context, t *T, sources ...Source) (*Dials[
 		// the time.
 		cbch := make(chan userCallbackEvent, 64)
 		d.cbch = cbch
+		d.monDone = make(chan struct{})
 		cbmgr := callbackMgr[T]{
-			p:  &p,
-			ch: cbch,
+			p:    &p,
+			ch:   cbch,
+			done: d.monDone,
 		}
 		go cbmgr.runCBs(ctx)
 
@@ -520,8 +522,16 @@ func (d *Dials[T]) submitEventBlocking(ctx context.Context, ev userCallbackEvent
 	if d.cbch == nil {
 		return false
 	}
+	// Once the monitor has exited nothing is going to handle new events.
+	select {
+	case <-d.monDone:
+		return false
+	default:
+	}
 	select {
 	case <-ctx.Done():
+		return false
+	case <-d.monDone:
 		return false
 	case d.cbch <- ev:
 		return true
@@ -630,7 +640,10 @@ func (d *Dials[T]) monitor(
 	watcherChan chan watchStatusUpdate,
 	monCtl <-chan verifyEnable[T],
 ) {
-	defer close(d.cbch)
+	// Signal the callback goroutine (and API callers) that we're exiting.
+	// (the callback channel itself is never closed because RegisterCallback
+	// and the unregister functions may send on it at any time)
+	defer close(d.monDone)
 	skipVerify := d.params.DelayInitialVerification
 	for {
 		select {
